@@ -213,6 +213,9 @@ pub struct CodegenContext {
 
     /// How many loop iterations were emitted in this pass, over all loops?
     loop_iterations: usize,
+
+    /// How deeply are the blocks nested that are currently being emitted?
+    emit_depth: usize,
 }
 
 #[derive(Debug, PartialEq, Eq, Hash)]
@@ -264,6 +267,7 @@ impl CodegenContext {
             macro_depth: 0,
             macro_depth_exceeded: false,
             loop_iterations: 0,
+            emit_depth: 0,
         }
     }
 
@@ -557,12 +561,26 @@ impl CodegenContext {
     }
 
     fn emit_tokens(&mut self, tokens: &[Token]) -> CoreResult<()> {
+        // Blocks without a scope of their own ('.if', '.segment') inside a macro that invokes itself nest as deeply as
+        // scopes do: refuse to go deeper than the stack allows
+        const MAX_EMIT_DEPTH: usize = 500;
+        if self.emit_depth >= MAX_EMIT_DEPTH {
+            return Err(Diagnostic::error()
+                .with_message(format!(
+                    "blocks are nested more than {} levels deep",
+                    MAX_EMIT_DEPTH
+                ))
+                .into());
+        }
+        self.emit_depth += 1;
+
         let mut errors = Diagnostics::default();
         for token in tokens {
             if let Err(result) = self.emit_token(token) {
                 errors.extend(result);
             }
         }
+        self.emit_depth -= 1;
         if errors.is_empty() {
             Ok(())
         } else {
